@@ -34,6 +34,15 @@ def main():
     add('S2A_ptr', [('s', '[]int32')], 'int32', 'p := (*[2]int32)(s); v := p[1]', 's2a')
     add('S2A_val', [('s', '[]int32')], 'int32', 'a := [2]int32(s); v := a[0] + a[1]', 's2a')
     add('S2A_ptr0', [('s', '[]int32')], 'int', 'p := (*[0]int32)(s); v := len(p)', 's2a')
+    # array lengths at the maximum of the index type (a check that is elided
+    # because 'the index cannot reach the length' must get the boundary right)
+    for it, n in [('uint8', 255), ('uint8', 256), ('int8', 127), ('int8', 128), ('uint8', 254)]:
+        add('IdxPArrMax_%s_%d' % (it, n), [('a', '*[%d]int8' % n), ('i', it)], 'int8', 'v := a[i]', 'index')
+        add('SetPArrMax_%s_%d' % (it, n), [('a', '*[%d]int8' % n), ('i', it), ('x', 'int8')], 'int8', 'a[i] = x; v := a[i]', 'index')
+    add('IdxArrMax_uint8_255', [('a', '[255]int8'), ('i', 'uint8')], 'int8', 'v := a[i]', 'index')
+    if tier == 'thorough':
+        for it, n in [('uint16', 65535), ('uint16', 65536), ('int16', 32767)]:
+            add('IdxPArrMax_%s_%d' % (it, n), [('a', '*[%d]int8' % n), ('i', it)], 'int8', 'v := a[i]', 'index')
     # constant indices (bounds checks partly folded by the type checker / compiler)
     add('IdxSlice_const', [('s', '[]int32')], 'int32', 'v := s[2]', 'index')
     add('IdxArr_const', [('a', '[4]int32')], 'int32', 'v := a[3]', 'index')
